@@ -238,11 +238,12 @@ pub fn literal_soup(r: &mut Rng) -> String {
 /// focused alphabets: every sequence up to a longer length over the tokens of one sub-language, where the
 /// 33-class enumeration is too short to spell the interesting neighbourhoods (else after a non-conditional,
 /// restart inside a later condition, blocks around groups, apply forms inside nested expressions)
-pub const FOCUS: [(&str, &[&str]); 4] = [
+pub const FOCUS: [(&str, &[&str]); 5] = [
     ("conditionals", &["5", "x", "?>", "!>", "|>", "(", ")", "^~", ",", "&&"]),
     ("blocks-and-lists", &["5", "x", "[", "]", "(", ")", ",", "+", "--", "~~", ";"]),
     ("expressions-and-apply", &["5", "$", "{", "}", "<~", "~>", "~~", "^~", "?>", ";"]),
     ("separators", &["5", "x", ";", "\n\n", ";;", "(", ")", "{", "}", ",", "[", "]"]),
+    ("identifier-apply", &["5", "x", "`f`", "f`", "`g", "+", ".x", "(", ")", "--"]),
 ];
 
 pub fn focus_count(len: usize) -> u64 {
